@@ -57,11 +57,23 @@ func NewContextForSecuredDevice(b SecuredDevice) Context {
 }
 
 func (ctx *context) GetKey(c net.Conn) interface{} {
-	return c.RemoteAddr().String()
+	return connectionKey(c.RemoteAddr().String(), c.LocalAddr())
 }
 
 func (ctx *context) GetConnectionKey(r *http.Request) interface{} {
-	return r.RemoteAddr
+	local, _ := r.Context().Value(http.LocalAddrContextKey).(net.Addr)
+	return connectionKey(r.RemoteAddr, local)
+}
+
+// connectionKey returns the key of a connection. The remote address alone does not identify
+// a connection: a peer can be connected from the same address and port to different
+// addresses of the accessory at the same time.
+func connectionKey(remote string, local net.Addr) string {
+	if local == nil {
+		return remote
+	}
+
+	return remote + " " + local.String()
 }
 
 func (ctx *context) Set(key, val interface{}) {
